@@ -270,6 +270,10 @@ class QuiltWorld(WorldBase):
             b = ch.randint(a + 1, n)
             if ch.chance(0.3):
                 return {'s': [a, b, ch.randint(2, 3)]}
+            if ch.chance(0.04):
+                return {'s': [a, a]}  # selects nothing (a key spanning zero members)
+            if ch.chance(0.04) and not hier:
+                return {'s': [b - 1, a - 1 if a > 0 else None, -1]}  # reversed
             return {'s': [a, b]}
         if k == 'l':
             sel = ch.sample(range(n), ch.randint(1, n))
@@ -296,6 +300,10 @@ class QuiltWorld(WorldBase):
         elif what in ('q_iloc', 'q_loc'):
             op['r'] = self._key(ch, nr, hier=self.retain and self.axis == 0)
             op['c'] = self._key(ch, nc, hier=self.retain and self.axis == 1)
+            opp = 'c' if self.axis == 0 else 'r'
+            k = op.get(opp)
+            if k and 's' in k and k['s'][0] == k['s'][1]:
+                op[opp] = {'all': 1}  # zero-width selections on the other axis are plain Frame selection (C04), not the Quilt's business
             if what == 'q_iloc' and ch.chance(0.2):
                 op['c'] = None  # single-axis key
         elif what == 'q_getitem':
@@ -353,6 +361,10 @@ class QuiltWorld(WorldBase):
             k = op.get('r') if self.axis == 0 else op.get('c')
             if k and 'l' in k and k['l'] != sorted(k['l']):
                 site, self._icls = 'Quilt.selection', 'list-key-not-in-index-order-on-quilt-axis'
+            elif k and 's' in k and len(k['s']) > 2 and k['s'][2] is not None and k['s'][2] < 0:
+                site, self._icls = 'Quilt.selection', 'negative-step-slice-on-quilt-axis'
+            elif k and 's' in k and len(k['s']) >= 2 and k['s'][0] == k['s'][1]:
+                site, self._icls = 'Quilt.selection', 'empty-selection-on-quilt-axis'
         st, r = call(thunk)
         out = self._judge(site, op, exp, st, r, bus is self.bus)
         if cold:
@@ -453,6 +465,8 @@ class QuiltWorld(WorldBase):
             return labels[key['i']]
         if 's' in key:
             a, b = key['s'][:2]
+            if b is None or (len(key['s']) > 2 and key['s'][2] is not None and key['s'][2] < 0) or a == b:
+                return None  # reversed / empty label slices are only driven through iloc
             sel = labels[a:b]
             if not sel:
                 return None
